@@ -109,9 +109,9 @@ func wantCond(k *model.KV, name string, v uint32, allowed bool) getOut {
 }
 
 func checkC09(t *testing.T, env *report.Env, rep *report.Report) {
-	depth := 3
+	depth := 4
 	if env.Thorough() {
-		depth = 5
+		depth = 6
 	}
 	alpha := Alphabet([]string{"a", "b"}, []string{"", "x", "y"}, []uint32{1, 2, 3}, false)
 	fs := &failSet{}
